@@ -197,9 +197,13 @@ theorem struct_step (o : Oracle) (fuel : Nat) (ih : AllShaped o fuel) : (parseSt
   refine sat_bind _ _ shapedIB _ ?_ ?_
   · apply sat_withGroup; intro _ _; exact ih.fields
   · intro ⟨fields, rest⟩ hf
-    apply sat_ite'
-    · exact sat_fail _
-    · apply sat_pure; exact hf
+    by_cases hc : (path.isNone && !rest) = true
+    · simp only [hc, if_true]; exact sat_fail _
+    · simp only [hc, Bool.false_eq_true, if_false]
+      apply sat_pure
+      show (Pat.struct id path fields rest).parserShaped = true
+      have hf' : fields.parserShaped = true := hf
+      cases path <;> cases rest <;> simp_all [Pat.parserShaped]
 
 theorem set_step (o : Oracle) (fuel : Nat) (ih : AllShaped o fuel) : (parseSet o (fuel + 1)).sat shapedP := by
   unfold parseSet
